@@ -150,6 +150,46 @@ m("C01","report-handler-refreshes-proof","x/storage/keeper/msg_server_report.go"
 m("C01","credit-by-key-prefix","x/storage/keeper/rewards.go",
   '(*sizeTracker)[proof.Prover] += file.FileSize','(*sizeTracker)[providerAddress] += file.FileSize',"C01/R5","rewards:credited-key")
 
+# ---- C14
+m("C14","attest-quorum-off-by-one","x/storage/keeper/msg_server_attest.go",
+  'if count < k.GetParams(ctx).AttestMinToPass {','if count+1 < k.GetParams(ctx).AttestMinToPass {',"C14/R1","storage.MsgAttest:quorum-operands-direct")
+m("C14","attest-count-every-entry","x/storage/keeper/msg_server_attest.go",
+  """		if attestation.Complete {
+			count++
+		}""","""		count++""","C14/R2","storage.MsgAttest:count-only-complete")
+m("C14","attest-complete-without-match","x/storage/keeper/msg_server_attest.go",
+  """		if attestation.Provider == creator {
+			attestation.Complete = true
+			done = true
+		}""","""		if attestation.Provider == creator {
+			done = true
+		}
+		attestation.Complete = true""","C14/R2","storage.MsgAttest:complete-set-only-on-match")
+m("C14","attest-form-not-deleted","x/storage/keeper/msg_server_attest.go",
+  'k.RemoveAttestation(ctx, form.Prover, form.Merkle, form.Owner, form.Start)','_ = form.Start',"C14/R3","storage.MsgAttest:form-consumed")
+m("C14","report-no-quorum-check","x/storage/keeper/msg_server_report.go",
+  'if count < k.GetParams(ctx).AttestMinToPass {','if count < k.GetParams(ctx).AttestMinToPass && count < 1 {',"C14/R1","storage.MsgReport:quorum-gate")
+m("C14","report-done-always","x/storage/keeper/msg_server_report.go",
+  'done := false','done := true',"C14/R2","storage.MsgReport:flag-set-only-on-match")
+m("C14","report-flag-match-prover","x/storage/keeper/msg_server_report.go",
+  'if attestation.Provider == creator {','if attestation.Provider == prover {',"C14/R2","storage.MsgReport")
+m("C14","request-form-skip-size-check","x/storage/keeper/msg_server_attest.go",
+  'if len(providers) < int(params.AttestFormSize) {','if len(providers) < 1 {',"C14/R4","storage.MsgRequestAttestationForm:enough-candidates")
+m("C14","request-form-overwrite-existing","x/storage/keeper/msg_server_report.go",
+  """	_, found = k.GetReportForm(ctx, prover, merkle, owner, start)
+	if found {""","""	_, found = k.GetReportForm(ctx, prover, merkle, owner, start)
+	if found && start < 0 {""","C14/R4","storage.MsgRequestReportForm:form-new")
+m("C14","attest-act-before-flag","x/storage/keeper/msg_server_attest.go",
+  """	if !done {
+		return sdkerrors.Wrapf(types.ErrAttestInvalid, "you cannot attest to this deal")
+	}
+
+	if count""","""	if !done && count < 1 {
+		return sdkerrors.Wrapf(types.ErrAttestInvalid, "you cannot attest to this deal")
+	}
+
+	if count""","C14/R1","storage.MsgAttest:signer-matched-flag")
+
 for x in M:
     d = os.path.join(os.path.dirname(os.path.abspath(__file__)), x["property"])
     os.makedirs(d, exist_ok=True)
